@@ -18,7 +18,8 @@ def hm_program(rng, nthreads, nops, keys=(1, 2, 3, 5, 8), iter_ops=False, is_map
     return prog
 
 CONFIGS = [{'c': 'set'}, {'c': 'map', 'buckets': '1', 'memo': '0'}, {'c': 'map', 'buckets': '1', 'memo': '1', 'hash': 'const'},
-           {'c': 'map', 'buckets': '2', 'memo': '1', 'hash': 'mod2'}, {'c': 'map', 'buckets': '8', 'memo': '0'}, {'c': 'map', 'buckets': '2', 'memo': '0', 'hash': 'const'}]
+           {'c': 'map', 'buckets': '2', 'memo': '1', 'hash': 'mod2'}, {'c': 'map', 'buckets': '8', 'memo': '0'}, {'c': 'map', 'buckets': '2', 'memo': '0', 'hash': 'const'},
+           {'c': 'map', 'buckets': '1', 'memo': '1', 'hash': 'rev'}, {'c': 'map', 'buckets': '2', 'memo': '1', 'hash': 'rev'}]   # rev: hash order opposite to key order inside a bucket
 RECL_QUICK = [('HPs<6>', '_hp'), ('EBR', '_ebr'), ('LFRC', '_lfrc')]
 RECL_ALL = RECL_QUICK + [('HEs<6>', '_he'), ('NEBR', '_nebr'), ('DEBRA', '_debra'), ('QSBR', '_qsbr'), ('STAMP', '_stamp'), ('HPd<2>', '_hpd')]
 def harnesses(tier):
